@@ -87,17 +87,221 @@ def gen_atol_cases(rng, tier):
             yield Case(f'atol-{kind}-{r}', ops)
 
 
+
+# --------------------------------------------------------------------------
+# whole-archive cases
+
+BYTE_FMTS = ['ustar', 'odc', 'newc']                     # byte-exact Lean model
+SPEC_FMTS = ['pax', 'paxr', 'gnutar', 'v7tar', 'bin', 'pwb', 'arbsd', 'arsvr4', 'zip', '7zip', 'xar',
+             'iso9660', 'mtree', 'warc']                  # spec-level (representable / norm) only
+ALL_FMTS = BYTE_FMTS + SPEC_FMTS
+SPOOLING = ('7zip', 'xar', 'iso9660', 'zip', 'mtree')   # nothing readable before close: no abort mode
+TYPES = ['reg', 'dir', 'lnk', 'chr', 'blk', 'fifo', 'sock']
+
+
+def hx(b):
+    if isinstance(b, str):
+        b = b.encode()
+    return bytes(b).hex() if len(b) else '-'
+
+
+def ent_line(d):
+    return 'ent ' + ' '.join(f'{k}={v}' for k, v in d.items() if v is not None)
+
+
+def good_entry(rng, fmt, k, typ='reg'):
+    """A small entry every format accepts (per-format supported type), distinct names."""
+    name = f'd{k}/f{k}' if fmt not in ('arbsd', 'arsvr4') else f'f{k}'
+    size = rng.choice([0, 1, 3, 511, 512, 513, 1500])
+    d = dict(path=hx(name), type='reg', perm=rng.choice(['644', '600', '755']), uid=str(rng.choice([0, 1, 1000, 65535])),
+             gid=str(rng.choice([0, 5, 100])), size=str(size), mtime=str(rng.choice([0, 1, 10 ** 9, 2 ** 31 - 1])),
+             dev='5', ino=str(20 + k), nlink='1', body=f'{rng.randrange(256)}:{size}')
+    if rng.random() < 0.5:
+        d['chunks'] = ','.join(str(rng.choice([1, 2, 7, 100, 511, 512, 513])) for _ in range(rng.choice([1, 2, 3])))
+    return d
+
+
+def with_type(d, typ, rng):
+    d = dict(d)
+    d['type'] = typ
+    if typ != 'reg':
+        d['size'] = '0'; d.pop('body', None); d.pop('chunks', None)
+    if typ == 'lnk':
+        d['sym'] = hx('target/of/link')
+    if typ in ('chr', 'blk'):
+        d['rdevmajor'] = str(rng.choice([0, 1, 8, 255])); d['rdevminor'] = str(rng.choice([0, 3, 255]))
+    return d
+
+
+NUM_BORDERS = sorted(set([0, 1, 255, 256, 4095, 4096, 65535, 65536, 262143, 262144, 999999, 1000000, 2097151, 2097152,
+                          2 ** 24 - 1, 2 ** 24, 2 ** 31 - 1, 2 ** 31, 2 ** 32 - 1, 2 ** 32, 2 ** 33 - 1, 2 ** 33,
+                          9999999999, 10 ** 10, 10 ** 12 - 1, 10 ** 12, 2 ** 60 - 1, 2 ** 60, 2 ** 62 - 1, 2 ** 62, 2 ** 63 - 1]))
+
+
+def name_probes(rng):
+    """Pathnames at the ustar / v7 / ar limits with '/' placed around the split rule."""
+    out = []
+    for L in (15, 16, 17, 99, 100, 101, 102, 154, 155, 156, 157, 200, 254, 255, 256, 257, 300):
+        out.append(('flat', 'n' * L))
+        for k in sorted(set([L - 102, L - 101, L - 100, L - 99, 153, 154, 155, 156, 1, L - 2])):
+            if 0 < k < L - 1:
+                p = ['x'] * L; p[k] = '/'
+                out.append((f'slash@{k}', ''.join(p)))
+        if L > 101:
+            p = ['y'] * L; p[0] = '/'; out.append(('lead', ''.join(p)))
+            p = ['y'] * L; p[0] = '/'; p[L - 60] = '/'; out.append(('lead+mid', ''.join(p)))
+            p = ['z'] * L; p[L - 1] = '/'; out.append(('trail', ''.join(p)))
+            p = ['z'] * L; p[L - 101] = '/'; p[L - 1] = '/'; out.append(('mid+trail', ''.join(p)))
+            k = rng.choice([L - 101, L - 100, L - 50])
+            p = ['w'] * L; p[k - 1] = '/'; p[k] = '/'; out.append((f'dbl@{k}', ''.join(p)))
+    out += [('utf8', 'd/é中'.encode()), ('badutf8', b'd/\xff\xfe'), ('dot', './a/b'), ('abs', '/a/b'), ('dbl', 'a//b'),
+            ('dotdot', '../b'), ('sp', 'a b/c d'), ('long', 'p/' * 400 + 'q')]
+    return out
+
+
+def c10_probes(rng, fmt):
+    """(label, entry dict, big?) — one field of one entry pushed to / past a border."""
+    base = lambda: good_entry(rng, fmt, 1)
+    P = []
+    for f in ('uid', 'gid'):
+        for v in NUM_BORDERS + [-1]:
+            d = base(); d[f] = str(v); P.append((f'{f}={v}', d, False))
+    for v in NUM_BORDERS + [-1, -2, -2 ** 31, -2 ** 31 - 1, -11644473600, -11644473601, -2 ** 63]:
+        d = base(); d['mtime'] = str(v); P.append((f'mtime={v}', d, False))
+    for v in NUM_BORDERS:
+        if v > 4000:
+            d = base(); d['size'] = str(v); d.pop('body', None); d.pop('chunks', None); d['nofinish'] = '1'
+            P.append((f'size={v}', d, True))
+    for t in ('chr', 'blk'):
+        for f in ('rdevmajor', 'rdevminor'):
+            for v in (255, 256, 4095, 4096, 65535, 65536, 262143, 262144, 2097151, 2097152, 2 ** 32 - 1, 2 ** 32):
+                d = with_type(base(), t, rng); d[f] = str(v); P.append((f'{t}.{f}={v}', d, False))
+    for f, vals in (('dev', [65535, 65536, 262143, 262144, 2 ** 32 - 1, 2 ** 32, 2 ** 63 - 1]),
+                    ('nlink', [2, 65535, 65536, 262143, 262144, 2 ** 32 - 1]),
+                    ('ino', [0, 65535, 65536, 2 ** 32 - 1, 2 ** 32, 2 ** 63 - 1])):
+        for v in vals:
+            d = base(); d[f] = str(v); P.append((f'{f}={v}', d, False))
+    for f in ('uname', 'gname'):
+        for n in (1, 31, 32, 33, 64, 300):
+            d = base(); d[f] = hx('u' * n); P.append((f'{f}.len={n}', d, False))
+        d = base(); d[f] = hx(b'n\xffm'); P.append((f'{f}.badutf8', d, False))
+    for lbl, nm in name_probes(rng):
+        d = base(); d['path'] = hx(nm); P.append((f'path.{lbl}.{len(nm)}', d, False))
+        if lbl.startswith('slash') and rng.random() < 0.3:
+            d = with_type(base(), 'dir', rng); d['path'] = hx(nm); P.append((f'dirpath.{lbl}.{len(nm)}', d, False))
+    for n in (1, 99, 100, 101, 255, 1000):
+        d = with_type(base(), 'lnk', rng); d['sym'] = hx('t' * n); P.append((f'sym.len={n}', d, False))
+        d = base(); d['hard'] = hx('h' * n); d['size'] = '0'; d.pop('body', None); d.pop('chunks', None); d['nlink'] = '2'
+        P.append((f'hard.len={n}', d, False))
+    for t in TYPES + ['none']:
+        P.append((f'type={t}', with_type(base(), t, rng), False))
+    d = base(); d['path'] = '-'; P.append(('nopath', d, False))
+    d = base(); d['size'] = '-'; d.pop('body', None); d.pop('chunks', None); P.append(('nosize', d, False))
+    for pm in ('0', '777', '7777', '4755'):
+        d = base(); d['perm'] = pm; P.append((f'perm={pm}', d, False))
+    d = base(); d['mtimens'] = '123456789'; P.append(('mtimens', d, False))
+    return P
+
+
+def archive_case(label, fmt, ents, bpb=None, bilb=None, filt=None, abort=False, nread=None):
+    o = f'open f={fmt}'
+    if bpb is not None:
+        o += f' bpb={bpb}'
+    if bilb is not None:
+        o += f' bilb={bilb}'
+    if filt:
+        o += f' filter={filt}'
+    ops = [o] + [ent_line(e) for e in ents] + ['abort' if abort else 'close']
+    ops += [f'rd {i}' for i in range((nread if nread is not None else len(ents)) + 1)] + ['done']
+    return Case(label, ops, {'fmt': fmt})
+
+
+def needs_bilb1(fmt):
+    return fmt in ('arbsd', 'arsvr4', 'warc')
+
+
+def gen_c10_cases(rng, tier):
+    for fmt in ALL_FMTS:
+        probes = c10_probes(rng, fmt)
+        if tier == 'quick' and fmt not in BYTE_FMTS:
+            probes = [p for p in probes if rng.random() < 0.3]
+        for lbl, d, big in probes:
+            a, b = good_entry(rng, fmt, 0), good_entry(rng, fmt, 2)
+            if big and fmt in SPOOLING:
+                if int(d['size']) > 65536:
+                    continue      # these writers spool the declared size to a temporary file on close
+                d = dict(d); d.pop('nofinish'); d['body'] = f"{rng.randrange(256)}:{d['size']}"
+                big = False
+            if big:
+                # declared size only: unbuffered, header bytes reach the sink at once, no body, no close
+                yield archive_case(f'c10-{fmt}-{lbl}', fmt, [a, d], bpb=0, abort=True, nread=2)
+            else:
+                extra = 3 if fmt == 'iso9660' else 0
+                yield archive_case(f'c10-{fmt}-{lbl}', fmt, [a, d, b],
+                                   bpb=rng.choice([None, 512, 0, 10240, 1, 7]) if not needs_bilb1(fmt) else rng.choice([None, 512]),
+                                   bilb=1 if needs_bilb1(fmt) else rng.choice([None, None, 1, 512]), nread=3 + extra)
+
 class Codec(Engine):
     name = 'codec'
     extra_cflags = tuple(os.path.join(H, f) for f in INC)
     repo_deps = tuple(REPO_DEPS) + tuple(os.path.join(H, f) for f in INC) + (os.path.join(H, 'codec_inc.h'),)
 
-    def __init__(self, mode='c10'):
+    # leak detection off: LSan's at-exit scan costs ~20 ms in each forked case and leaks are not what
+    # C10/C02 observe (ASan/UBSan memory errors still abort the case)
+    env = {'ASAN_OPTIONS': 'detect_leaks=0:abort_on_error=0:exitcode=99:allocator_may_return_null=1'}
+
+    def __init__(self, mode='c10', bulk=False):
         self.mode = mode
+        self.bulk = bulk          # the plain-flavour twin (`codecp`) runs the bulk of the round trips
+        if bulk:
+            self.name = 'codecp'
+            self.flavour = 'plain'
+            self.repo_deps = self.repo_deps + (os.path.join(H, 'eng_codec.c'),)
 
     def gen(self, rng, tier):
-        yield from gen_fmt_cases(rng, tier)
-        yield from gen_atol_cases(rng, tier)
+        if not self.bulk:
+            yield from gen_fmt_cases(rng, tier)
+            yield from gen_atol_cases(rng, tier)
+        if self.mode == 'c10':
+            for c in gen_c10_cases(rng, tier):
+                # sanitizer build: a sample; plain build: everything
+                if self.bulk or rng.random() < (0.06 if tier == 'quick' else 0.25):
+                    yield c
+
+    # -- the property predicate is a Lean function (engines codec.c10 / codec.c02): evaluated on the
+    #    implementation's output by the driver, cached per (ops, impl)
+    def _verdicts(self, pairs):
+        lines = []
+        for i, (ops, im) in enumerate(pairs):
+            lines.append(f'#case {i}')
+            for j, o in enumerate(ops):
+                lines.append(o + '\t' + (im[j] if j < len(im) else ''))
+        drv = os.path.join(core.LEAN, '.lake', 'build', 'bin', 'driver')
+        r = subprocess.run([drv, 'codec.' + self.mode], input='\n'.join(lines) + '\n', stdout=subprocess.PIPE,
+                           stderr=subprocess.PIPE, text=True, timeout=self.timeout)
+        if r.returncode != 0:
+            raise core.BuildError('oracle driver failed: ' + r.stderr[-2000:])
+        out = core.split_cases(r.stdout, len(pairs))
+        return [(o[-1] if o else 'ok') for o in out]
+
+    def run_model(self, cases, impl):
+        model = super().run_model(cases, impl)
+        self._cache = getattr(self, '_cache', {})
+        todo = [(c.ops, impl[i]) for i, c in enumerate(cases) if c.ops and c.ops[-1] == 'done']
+        if todo:
+            for (ops, im), v in zip(todo, self._verdicts(todo)):
+                self._cache[('\n'.join(ops), '\n'.join(im))] = v
+        return model
+
+    def oracle(self, case, impl):
+        if not case.ops or case.ops[-1] != 'done':
+            return None
+        k = ('\n'.join(case.ops), '\n'.join(impl))
+        cache = getattr(self, '_cache', {})
+        v = cache.get(k)
+        if v is None:
+            v = self._verdicts([(case.ops, impl)])[0]
+        return None if v == 'ok' else v
 
     def nontrivial(self, case, impl):
         return any('r=-1' in l or 'v=' in l or 'h=' in l for l in impl)
